@@ -203,8 +203,10 @@ func c04SingleSub(dir string) *engine.Sub {
 		Name:   "single-token-window",
 		Repeat: true,
 		Rule:   "IsValidAt of every delegation window (9) and invocation expiry (3), constructed and after seal->unseal, at 22 probe instants, each expressed in UTC and in two other time zones (+14h, -11h30); strictly inside => valid, strictly outside => invalid, on a bound don't care; non-trivial = at least one bound present",
-		Bound:  func(string) string { return "9+3 windows x {constructed, sealed+unsealed} x 66 probes (22 instants x 3 zones)" },
-		Setup:  func(string) error { chainInit(); return nil },
+		Bound: func(string) string {
+			return "9+3 windows x {constructed, sealed+unsealed} x 66 probes (22 instants x 3 zones)"
+		},
+		Setup: func(string) error { chainInit(); return nil },
 		Gen: func(tier string, emit func(any) bool) {
 			for _, sealed := range []bool{false, true} {
 				for w := 0; w < 9; w++ {
